@@ -31,6 +31,9 @@ class Gen:
     def __init__(self, fid: int) -> None:
         self.fid = fid
 
+    def __bool__(self) -> bool:
+        return self.fid % 3 != 0
+
 
 def val_str(v: Any) -> str | None:
     if v is None:
